@@ -24,6 +24,8 @@ package main
 //   for i, e := range xs {..}    fold over xs.zipIdx threading the variables assigned in the body
 //                                (xs may be `ys[i+1:]`); no break/continue/return inside
 //   assign(e, left); return      `true`  (assignGroup decides left);  assign(e, right) = `false`
+//   chooseNode                   the leading leaf/level test is left to the control skeleton; the result is the
+//                                BOX of the entry recursed into: `return tree.chooseNode(chosen.child, e, level)` = chosen
 // Anything else is outside the subset: the function is left out of Gen.lean and the tie that
 // mentions it fails by name.
 
@@ -280,6 +282,12 @@ func (e *tenv) expr(x ast.Expr) (string, kind) {
 					xfail("math.Abs of a non-number")
 				}
 				return "(ratAbs (" + s + "))", kRat
+			}
+			if f.Sel.Name == "chooseNode" && len(t.Args) == 3 { // the recursion of chooseNode: the chosen entry
+				if base, path, ok := selPath(t.Args[0]); ok && len(path) == 1 && path[0] == "child" && e.kinds[base] == kBox {
+					return lname(base), kBox
+				}
+				xfail("chooseNode recursion on something else than <entry>.child")
 			}
 			if f.Sel.Name == "computeBoundingBox" && len(t.Args) == 0 {
 				s, k := e.expr(f.X)
@@ -619,6 +627,11 @@ func (e *tenv) stmts(ss []ast.Stmt, ind string, atEnd fin, inLoop bool) string {
 type fspec struct {
 	file, name string
 	decide     bool // assignGroup: result is the group decision
+	// chooseNode: the leading `if n.leaf || n.level == level { return n }` is left to the control
+	// skeleton (skip = 1 statement) and the result is the BOX of the entry the function recurses into
+	// (`return tree.chooseNode(chosen.child, e, level)` = `chosen`)
+	skip   int
+	resBox bool
 }
 
 func trFunc(fd *ast.FuncDecl, sp fspec) string {
@@ -626,7 +639,7 @@ func trFunc(fd *ast.FuncDecl, sp fspec) string {
 	var params []string
 	lt := map[kind]string{kRat: "Rat", kBool: "Bool", kBox: "Box", kPt: "GPt", kInt: "Int", kBoxes: "List Box", kNat: "Nat"}
 	first := ""
-	if fd.Recv != nil { // method on *node: the receiver is the list of entry boxes
+	if fd.Recv != nil && !sp.resBox { // method on *node: the receiver is the list of entry boxes
 		r := fd.Recv.List[0]
 		e.kinds[r.Names[0].Name] = kBoxes
 		params = append(params, "("+lname(r.Names[0].Name)+" : List Box)")
@@ -644,6 +657,9 @@ func trFunc(fd *ast.FuncDecl, sp fspec) string {
 	var atEnd fin
 	res := ""
 	switch {
+	case sp.resBox:
+		res = "Box"
+		atEnd = func(*tenv) string { xfail("chooseNode falls off its end"); return "" }
 	case sp.decide:
 		res = "Bool"
 		atEnd = func(*tenv) string { xfail("assignGroup falls off its end"); return "" }
@@ -692,24 +708,28 @@ func trFunc(fd *ast.FuncDecl, sp fspec) string {
 		}
 	}
 	pre := ""
-	if fd.Type.Results != nil {
+	if fd.Type.Results != nil && !sp.resBox {
 		for _, r := range fd.Type.Results.List {
 			for _, n := range r.Names {
 				pre += "  let " + lname(n.Name) + " : Nat := 0\n"
 			}
 		}
 	}
-	body := e.stmts(fd.Body.List, "  ", atEnd, false)
+	if sp.skip > len(fd.Body.List) {
+		xfail("body shorter than the skipped prefix")
+	}
+	body := e.stmts(fd.Body.List[sp.skip:], "  ", atEnd, false)
 	return fmt.Sprintf("def %s (big : Rat) %s : %s :=\n%s%s\n", fd.Name.Name, strings.Join(params, " "), res, pre, body)
 }
 
 var wanted = []fspec{
-	{"geom.go", "size", false}, {"geom.go", "margin", false}, {"geom.go", "containsPoint", false},
-	{"geom.go", "containsRect", false}, {"geom.go", "intersect", false}, {"geom.go", "enlarge", false},
-	{"geom.go", "initBoundingBox", false}, {"geom.go", "boundingBox", false},
-	{"geom.go", "minDist", false}, {"geom.go", "minMaxDist", false},
-	{"rtree.go", "computeBoundingBox", false}, {"rtree.go", "assignGroup", true},
-	{"rtree.go", "pickNext", false}, {"rtree.go", "pickSeeds", false},
+	{"geom.go", "size", false, 0, false}, {"geom.go", "margin", false, 0, false}, {"geom.go", "containsPoint", false, 0, false},
+	{"geom.go", "containsRect", false, 0, false}, {"geom.go", "intersect", false, 0, false}, {"geom.go", "enlarge", false, 0, false},
+	{"geom.go", "initBoundingBox", false, 0, false}, {"geom.go", "boundingBox", false, 0, false},
+	{"geom.go", "minDist", false, 0, false}, {"geom.go", "minMaxDist", false, 0, false},
+	{"rtree.go", "computeBoundingBox", false, 0, false}, {"rtree.go", "assignGroup", true, 0, false},
+	{"rtree.go", "pickNext", false, 0, false}, {"rtree.go", "pickSeeds", false, 0, false},
+	{file: "rtree.go", name: "chooseNode", skip: 1, resBox: true},
 }
 
 func extract(repo string) (out string, failed []string) {
